@@ -48,8 +48,10 @@ KERNELS = {
 }
 SLOW = {'haralick', 'haralick_3d', 'rc_u16'}
 MEDIUM = {'thin', 'zernike_moments', 'lbp', 'lbp_transform', 'daubechies_d8', 'otsu_u16', 'fullhistogram_u16'}
+# C12 itself: its own check has the full stress; here only the warning-emitting calls next to functions that run long in numpy
+KERNELS['C12'] = ['stretch_big', 'majority_filter_even', 'erode_output_kw', 'spline_filter_output_kw', 'stretch', 'stretch_rgb']
 # C08 speaks about every public function: the union of the above
-KERNELS['C08'] = sorted({k for ks in KERNELS.values() for k in ks})
+KERNELS['C08'] = sorted({k for p_, ks in KERNELS.items() if p_ != 'C12' for k in ks})
 RULE = ('per function of the property: the same function on three inputs of different shapes from 4-8 threads; one mix of all the '
         "property's functions on distinct inputs and one on shared inputs; compared bit-for-bit with the sequential results")
 ASSUMPTIONS = ['thread stress samples schedules, it does not enumerate them (see C12 for what is proved about concurrency)']
